@@ -46,7 +46,7 @@ pub mod dec {
 
 	/// chain type Mainnet (proof size 42, mainnet magic and weights) instead of AutomatedTesting
 	pub const F_MAINNET: u8 = 1;
-	/// directed case: do not skip the preconditions excluded because of known findings
+	/// directed case of an open known finding: do not apply its exclusion
 	pub const F_NOEXCL: u8 = 2;
 	/// `BinReader` over a slice (handshake / API / db path) instead of `BufReader` (codec path)
 	pub const F_BIN: u8 = 4;
@@ -217,11 +217,7 @@ pub mod dec {
 		Some((e.group, out))
 	}
 
-	// ------------------------------------------------------------------ known-finding preconditions (exclusion by construction)
-
-	/// MerkleProof::read pre-allocates `path_len` hashes unchecked: further
-	/// MerkleProof inputs keep the declared path length at or below this cap.
-	pub const MERKLE_PATH_CAP: u64 = 4096;
+	// ------------------------------------------------------------------ open-finding preconditions (exclusion by construction)
 
 	/// declared path_len of a MerkleProof encoding
 	pub fn merkle_declared_len(b: &[u8]) -> Option<u64> {
@@ -231,36 +227,6 @@ pub mod dec {
 		let mut a = [0u8; 8];
 		a.copy_from_slice(&b[8..16]);
 		Some(u64::from_be_bytes(a))
-	}
-
-	#[derive(Debug, PartialEq, Eq)]
-	pub enum HexClass {
-		Valid(Vec<u8>),
-		/// util::from_hex answers Err
-		Invalid,
-		/// a two-byte chunk boundary falls inside a multi-byte character before any invalid chunk
-		Boundary,
-	}
-
-	/// independent model of util::from_hex (trim, strip "0x"s, pairs of hex digits)
-	pub fn hex_class(s: &str) -> HexClass {
-		let t = s.trim().trim_start_matches("0x");
-		if t.len() % 2 != 0 {
-			return HexClass::Invalid;
-		}
-		let mut out = vec![];
-		let mut i = 0;
-		while i < t.len() {
-			if !t.is_char_boundary(i) || !t.is_char_boundary(i + 2) {
-				return HexClass::Boundary;
-			}
-			match u8::from_str_radix(&t[i..i + 2], 16) {
-				Ok(b) => out.push(b),
-				Err(_) => return HexClass::Invalid,
-			}
-			i += 2;
-		}
-		HexClass::Valid(out)
 	}
 
 	/// The framing layer buffers an announced message body before it arrives
@@ -285,52 +251,49 @@ pub mod dec {
 		false
 	}
 
-	/// BitmapSegment::into_segment computes leaf positions 2n - popcount(n) that wrap
-	/// for leaf indices n >= 2^63 (Segment::from_parts then asserts): identifiers whose
-	/// segment reaches that range are excluded after the finding was recorded.
-	pub fn bitmap_offset_wraps(data: &[u8], at: usize) -> bool {
-		if data.len() < at + 9 {
-			return false;
-		}
-		let h = data[at];
-		let mut a = [0u8; 8];
-		a.copy_from_slice(&data[at + 1..at + 9]);
-		let idx = u64::from_be_bytes(a);
-		if h > 13 {
-			return false;
-		}
-		match idx.checked_mul(1u64 << h) {
-			Some(off) => off.saturating_add(1u64 << h) > 1u64 << 63,
-			None => false,
-		}
+	// Exclusion by construction exists only for findings that are listed as OPEN in
+	// KNOWN_FINDINGS.json: the parent computes the mask from the list and hands it
+	// to workers and fuzz targets (GV_C11_EXCL). A finding that is not listed is
+	// generated and checked like any other input, i.e. it is a plain violation.
+
+	/// message body buffered from the announced length (Codec::read / msg::read_message)
+	pub const X_FRAME: u32 = 1;
+	/// Segment::root starts at a wrapped position when the identifier's leaf offset is >= 2^63
+	pub const X_SEGWRAP: u32 = 2;
+
+	pub const SIG_FRAME_CODEC: &str = "overalloc:Codec::read:body-buffered-from-announced-length";
+	pub const SIG_FRAME_RM: &str = "overalloc:msg::read_message:body-buffered-from-announced-length";
+	pub const SIG_SEGWRAP: &str = "panic:Segment::validate@core/src/core/pmmr/segment.rs:460";
+
+	static EXCL: std::sync::atomic::AtomicU32 = std::sync::atomic::AtomicU32::new(u32::MAX);
+
+	pub fn set_exclusions(mask: u32) {
+		EXCL.store(mask, Ordering::SeqCst);
 	}
 
-	/// Some(reason) if this case meets a precondition excluded because of a known finding
+	/// the active exclusions: set explicitly, else GV_C11_EXCL, else the framing findings only
+	pub fn exclusions() -> u32 {
+		let m = EXCL.load(Ordering::SeqCst);
+		if m != u32::MAX {
+			return m;
+		}
+		let m = std::env::var("GV_C11_EXCL").ok().and_then(|s| s.parse::<u32>().ok()).unwrap_or(X_FRAME);
+		EXCL.store(m, Ordering::SeqCst);
+		m
+	}
+
+	/// leaf offset of the identifier as the release build computes it
+	pub fn leaf_offset(id: &SegmentIdentifier) -> u64 {
+		id.idx.wrapping_mul(1u64.wrapping_shl(id.height as u32))
+	}
+
+	/// Some(reason) if this case meets the precondition of an open known finding
 	pub fn excluded_by_known(entry: u16, flags: u8, data: &[u8]) -> Option<&'static str> {
 		if flags & F_NOEXCL != 0 {
 			return None;
 		}
 		match entry {
-			E_MERKLE => match merkle_declared_len(data) {
-				Some(n) if n > MERKLE_PATH_CAP => Some("merkle-path-len"),
-				_ => None,
-			},
-			E_MERKLE_HEX => match std::str::from_utf8(data).map(hex_class) {
-				Ok(HexClass::Valid(b)) => match merkle_declared_len(&b) {
-					Some(n) if n > MERKLE_PATH_CAP => Some("merkle-path-len"),
-					_ => None,
-				},
-				Ok(HexClass::Invalid) => Some("from_hex-unwrap"),
-				Ok(HexClass::Boundary) => Some("hex-char-boundary"),
-				Err(_) => None,
-			},
-			E_UTIL_HEX => match std::str::from_utf8(data).map(hex_class) {
-				Ok(HexClass::Boundary) => Some("hex-char-boundary"),
-				_ => None,
-			},
-			E_CODEC | E_RM_HAND | E_RM_SHAKE if frame_overannounce(data) => Some("frame-announces-absent-megabytes"),
-			E_BITMAPSEG if bitmap_offset_wraps(data, 0) => Some("bitmap-leaf-offset>=2^63"),
-			E_BITMAPRESP if bitmap_offset_wraps(data, 32) => Some("bitmap-leaf-offset>=2^63"),
+			E_CODEC | E_RM_HAND | E_RM_SHAKE if exclusions() & X_FRAME != 0 && frame_overannounce(data) => Some("frame-announces-absent-megabytes"),
 			_ => None,
 		}
 	}
@@ -754,16 +717,11 @@ pub mod dec {
 
 	fn post_segment<T: PMMRIndexHashable>(seg: &Segment<T>, trees: &[(u64, u64, Hash)], prunable: bool, flags: u8, out: &mut Outcome) {
 		let other = uni().other;
-		let id = seg.identifier();
+		if exclusions() & X_SEGWRAP != 0 && flags & F_NOEXCL == 0 && leaf_offset(&seg.identifier()) >= 1 << 63 {
+			out.excluded += 1;
+			return;
+		}
 		for &(n, size, root) in trees {
-			let (beyond, high) = (!segment_exists(&id, n), id.height >= 64);
-			// a directed high-identifier case still skips the MMRs it lies beyond, so that it reaches its own defect
-			if if flags & F_NOEXCL == 0 { beyond || high } else { beyond && high } {
-				// known findings: Segment::root unwraps None for an identifier beyond the last segment,
-				// and pops an empty stack when height >= 64 makes `1 << height` wrap
-				out.excluded += 1;
-				continue;
-			}
 			set_stage("Segment::validate");
 			tally(out, seg.validate(size, None, root).is_ok());
 			set_stage("Segment::validate_with");
@@ -783,7 +741,7 @@ pub mod dec {
 		t.iter().map(|t| (t.n, t.size, t.root)).collect()
 	}
 
-	fn post_bitmap(bs: BitmapSegment, flags: u8, out: &mut Outcome) {
+	fn post_bitmap(bs: BitmapSegment, _flags: u8, out: &mut Outcome) {
 		// what Protocol::consume does with a received bitmap segment
 		set_stage("BitmapSegment::into_segment");
 		let seg = match bs.into_segment() {
@@ -797,12 +755,7 @@ pub mod dec {
 			}
 		};
 		let u = uni();
-		let id = seg.identifier();
 		for bt in &u.bitmap {
-			if !segment_exists(&id, bt.chunks) && flags & F_NOEXCL == 0 {
-				out.excluded += 1;
-				continue;
-			}
 			// Desegmenter::add_bitmap_segment
 			set_stage("Segment::validate_with");
 			let root = combined_root(bt.root, u.other, true, bt.out_size);
@@ -845,6 +798,25 @@ pub mod dec {
 				tally(out, p.verify(t.root, &mk_kernel(t.n * 1000 + i, (i % 4) as u8), pos).is_ok());
 			}
 		}
+	}
+
+	/// Measured, not asserted (the statement bounds work by the input only for
+	/// decoders): a 33-byte output segment {height 63, idx 0, no hashes, no leaves,
+	/// empty proof} validated with an empty leaf bitmap makes Segment::root visit
+	/// every position of the MMR. Returns (microseconds, validate answered Err).
+	pub fn validate_walk_probe(n_leaves: u64) -> (u64, bool) {
+		let mut b = vec![63u8];
+		b.extend_from_slice(&[0u8; 32]);
+		let mut st = ReadStats::default();
+		let seg: Segment<OutputIdentifier> = match rd(&b, 1, 0, &mut st) {
+			Ok(s) => s,
+			Err(_) => return (0, true),
+		};
+		let size = pmmr::insertion_to_pmmr_index(n_leaves);
+		let bm = Bitmap::new();
+		let t0 = std::time::Instant::now();
+		let r = seg.validate(size, Some(&bm), uni().other);
+		(t0.elapsed().as_micros() as u64, r.is_err())
 	}
 
 	// ------------------------------------------------------------------ framed entry points
@@ -1357,6 +1329,7 @@ mod hs {
 			let mut child = Command::new(std::env::current_exe()?)
 				.args(["child", "x", "C11", "worker"])
 				.env("RUST_BACKTRACE", "0")
+				.env("GV_C11_EXCL", exclusions().to_string())
 				.stdin(Stdio::piped())
 				.stdout(Stdio::piped())
 				.stderr(Stdio::from(ef))
@@ -1522,9 +1495,9 @@ mod hs {
 					let sig = if merkle_entry(c) {
 						SIG_MERKLE_ALLOC.to_string()
 					} else if c.entry == E_CODEC && frame_overannounce(&c.data) {
-						"overalloc:Codec::read:body-buffered-from-announced-length".to_string()
+						SIG_FRAME_CODEC.to_string()
 					} else if (c.entry == E_RM_HAND || c.entry == E_RM_SHAKE) && frame_overannounce(&c.data) {
-						"overalloc:msg::read_message:body-buffered-from-announced-length".to_string()
+						SIG_FRAME_RM.to_string()
 					} else {
 						format!("overalloc:{}", st)
 					};
@@ -2077,7 +2050,12 @@ mod hs {
 		fc: String,
 	}
 
-	const U64_VALS: [u64; 28] = [
+	const U64_VALS: [u64; 33] = [
+		(1 << 63) + 1,
+		(1 << 63) + 2,
+		(1 << 63) + 4,
+		(1 << 63) + 1024,
+		(1 << 62) + 2,
 		1 << 56,
 		1 << 57,
 		1 << 61,
@@ -2493,6 +2471,8 @@ mod hs {
 			mk(E_MERKLE, F_BIN, merkle((ALLOC_REQ_BASE + 16 * ALLOC_PER_BYTE) / 32 + 1), "merkle-path-len-smallest-over-bound"),
 			mk(E_MERKLE_HEX, F_BIN, hex(&merkle(1 << 40)).into_bytes(), "merkle-hex-path-len-2^40"),
 			mk(E_SEG_KERN, 0, seg.clone(), "segment-idx-beyond-last"),
+			// identifier (height 0, idx 2^63 + 2): insertion_to_pmmr_index wraps, the walk starts at position 2 (a parent)
+			mk(E_SEG_KERN, 0, { let mut s = seg.clone(); s[1] = 0x80; s[8] = 2; s }, "segment-leaf-offset-2^63+2"),
 			// identifier (height 64, idx 1): `1 << 64` wraps to capacity 1 while the position range still adds 64
 			mk(E_SEG_OUT, 0, { let mut s = seg; s[0] = 64; s }, "segment-height-64"),
 			mk(E_UTIL_HEX, F_BIN, "a\u{e9}a".as_bytes().to_vec(), "hex-char-boundary"),
@@ -2647,7 +2627,7 @@ mod hs {
 				}
 				let ex = v["ex"].as_u64().unwrap_or(0);
 				if ex > 0 {
-					*t.classes.entry("excluded_by_construction:segment-identifier-beyond-last-or-height>=64(validations skipped)".into()).or_insert(0) += ex;
+					*t.classes.entry("excluded_by_construction:segment-leaf-offset>=2^63(validations skipped)".into()).or_insert(0) += ex;
 				}
 				if c.kind == "honest" && s != "ok" && !c.origin.starts_with("probe-") {
 					eprintln!("note: honest case not decoded: {} {} v{} flags {}: {}", name, c.origin, c.version, c.flags, v);
@@ -2871,6 +2851,10 @@ mod hs {
 			let mut j = case.to_json();
 			j["occurrences_in_this_run"] = json!(n);
 			ctx.report(part, &sig, j, &first.fail.msg);
+			// further occurrences of an open known finding are counted, not reported one by one
+			for _ in 1..n {
+				ctx.known_hit(&sig);
+			}
 			ctx.ev.class_n(&format!("failing_cases:{}", sig), n as u64);
 		}
 	}
@@ -2887,14 +2871,28 @@ mod hs {
 		}
 	}
 
+	/// exclusions by construction follow the OPEN entries of KNOWN_FINDINGS.json
+	fn exclusion_mask(ctx: &Ctx) -> u32 {
+		let mut m = 0;
+		if ctx.is_known(SIG_FRAME_CODEC) || ctx.is_known(SIG_FRAME_RM) {
+			m |= X_FRAME;
+		}
+		if ctx.is_known(SIG_SEGWRAP) {
+			m |= X_SEGWRAP;
+		}
+		m
+	}
+
 	pub fn run(ctx: &Ctx) -> HResult<()> {
 		init_global();
+		set_exclusions(exclusion_mask(ctx));
 		let ev = &ctx.ev;
+		ev.extra("exclusions_active", json!({"frame-announced-length": exclusions() & X_FRAME != 0, "segment-leaf-offset>=2^63": exclusions() & X_SEGWRAP != 0}));
 		ev.rule("every case = (entry point, protocol version 1/2/3/1000, chain type, reader implementation, bytes or string) is decoded in a worker process under the counting allocator, then the stateless post-decode checks run on the value (validate_read, hydrate_from, into_segment, Segment::validate / validate_with against the roots of 16 MMR sizes with and without leaf bitmaps, SegmentProof::validate, MerkleProof::verify). Inputs: honest encodings of every type (synthetic values, objects of a real-PoW chain, segments cut by Segment::from_pmmr) whose field layout is recorded by a wrapping Reader; every u64/u32/u16 field set to boundary and huge values, leading u8 fields swept 0..255, truncation at every offset (short encodings) or every field boundary, every byte position set to 00/ff/+1/-1, bit flips, tails spliced from other messages, duplicated fields, appended bytes, random tails, pure random bytes/strings of length 0..4096; selected by water-filling over strata (entry, mutation kind) from the run seed. evaluations = inputs decoded; non-trivial = at least one successful primitive read (past the first field) or post-decode checks reached; distinct by (entry, mutation kind, field class, decode outcome, post-check outcomes)");
 		ev.assume("allocation bounds pinned against honest maximal messages (calibration cases, re-measured in every run, see honest_alloc_max): a full mainnet block / body / maximal transaction of 1.37 MB needs a largest single request of 1.49 MB and 2.9 MB live; a 2048-leaf rangeproof segment of 1.46 MB needs 1.41 MB / 1.47 MB; a framed full block needs exactly its body length in one request: all far below 4 MiB + 64 x len and 16 MiB + 64 x len, so the designed constants were kept");
 		ev.assume("the counting global allocator sees every heap request of the worker; a single request above 256 MiB is refused (the worker aborts, which is the observable), the address space of a worker is capped at 6 GiB");
 		ev.assume("MMR sizes handed to Segment::validate are sizes of real MMRs (they come from a PoW-validated archive header); MerkleProof::verify is only measured for paths of at most 128 hashes");
-		ev.assume("known findings are excluded by construction (declared Merkle path length <= 4096; segment validation skipped where the identifier lies beyond the last segment or has height >= 64; bitmap segment identifiers whose leaf offset reaches 2^63; hex strings the two from_hex defects choke on; framed inputs announcing more than 4 MiB that are not in the input) and kept as one directed case each");
+		ev.assume("the two open known findings (message body buffered from the announced length in Codec::read_inner and msg::read_body / read_discard) are excluded by construction: framed inputs announcing more than 4 MiB that are not in the input are not generated, one directed case each is kept and reported through the known-findings list; the six repaired findings are no longer excluded anywhere: their directed cases are kept and must pass");
 		ev.assume("StreamingReader (msg::read_item) has no caller on network data in this tree and is not an entry point; Codec::read is driven over a loopback socket whose write side is closed after the input, so read timeouts never fire");
 		ev.extra("entry_points", json!(ENTRIES.iter().map(|e| e.name).collect::<Vec<_>>()));
 		ev.extra("alloc_limits", json!({"largest_request": "4 MiB + 64 x len", "peak_live": "16 MiB + 64 x len", "hard_single_request": ALLOC_HARD_LIMIT}));
@@ -2960,6 +2958,17 @@ mod hs {
 				}
 			}
 		}
+		// measured only: work of Segment::validate on a 33-byte segment as a function of the MMR size
+		let mut walk = serde_json::Map::new();
+		for lg in [10u32, 14, 18, 22] {
+			match catch(|| validate_walk_probe(1u64 << lg)) {
+				Ok((us, is_err)) => {
+					walk.insert(format!("2^{}_leaves", lg), json!({"us": us, "answer": if is_err { "Err" } else { "Ok" }}));
+				}
+				Err(f) => ctx.report("directed", &format!("panic:Segment::validate@{}", rel_path(f.sig.trim_start_matches("panic@"))), json!({"probe": "validate_walk", "leaves_log2": lg}), &f.msg),
+			}
+		}
+		ev.extra("segment_validate_walk_33_byte_segment_height63_empty_bitmap", Value::Object(walk));
 		// 4. thorough: libFuzzer campaigns
 		if !ctx.quick() {
 			fuzz_campaigns(ctx, &real);
@@ -2974,6 +2983,8 @@ mod hs {
 
 	pub fn replay(ctx: &Ctx, part: &str, case: &Value) -> PResult {
 		init_global();
+		// strict: nothing is skipped when a saved case is replayed
+		set_exclusions(0);
 		let dir = ctx.scratch_dir("c11-replay");
 		let r = match part {
 			"decode" | "directed" | "calibration" | "fuzz" => {
@@ -3137,6 +3148,7 @@ mod hs {
 							format!("-artifact_prefix={}/", arts.display()),
 						])
 						.env("RUST_BACKTRACE", "0")
+						.env("GV_C11_EXCL", exclusions().to_string())
 						.env("ASAN_OPTIONS", "detect_odr_violation=0:detect_leaks=0")
 						.stdin(Stdio::null())
 						.stdout(Stdio::null())
